@@ -14,6 +14,20 @@ from .uper_functions import functions
 from ...codecs import uper
 
 
+def format_integer_constant(value):
+    """An integer constant that has a type in C99 for every 64 bits
+    value.
+
+    """
+
+    if value > 9223372036854775807:
+        return '{}u'.format(value)
+    elif value == -9223372036854775808:
+        return '(-9223372036854775807 - 1)'
+    else:
+        return str(value)
+
+
 def does_bits_match_range(number_of_bits, minimum, maximum):
     return 2 ** number_of_bits == (maximum - minimum + 1)
 
@@ -157,8 +171,9 @@ class _Generator(Generator):
                     '    encoder_p,',
                     # Subtract as unsigned, as the signed subtraction
                     # may overflow for a value outside the range.
-                    '    (uint64_t)src_p->{} - (uint64_t){},'.format(location,
-                                                                    checker.minimum),
+                    '    (uint64_t)src_p->{} - (uint64_t){},'.format(
+                        location,
+                        format_integer_constant(checker.minimum)),
                     '    {});'.format(type_.number_of_bits)
                 ],
                 [
@@ -168,8 +183,9 @@ class _Generator(Generator):
                         location,
                         type_name),
                     '    decoder_p,',
-                    '    {}) + (uint64_t){});'.format(type_.number_of_bits,
-                                                      checker.minimum)
+                    '    {}) + (uint64_t){});'.format(
+                        type_.number_of_bits,
+                        format_integer_constant(checker.minimum))
                 ]
             )
 
